@@ -568,11 +568,11 @@ func (c *fakeConn) ReadFrom(b []byte) (int, net.Addr, error) {
 	}
 }
 func (c *fakeConn) WriteTo(b []byte, addr net.Addr) (int, error) { return len(b), nil }
-func (c *fakeConn) Close() error                                  { c.once.Do(func() { close(c.closed) }); return nil }
-func (c *fakeConn) LocalAddr() net.Addr                           { return fakeAddr }
-func (c *fakeConn) SetDeadline(t time.Time) error                 { return nil }
-func (c *fakeConn) SetReadDeadline(t time.Time) error             { return nil }
-func (c *fakeConn) SetWriteDeadline(t time.Time) error            { return nil }
+func (c *fakeConn) Close() error                                 { c.once.Do(func() { close(c.closed) }); return nil }
+func (c *fakeConn) LocalAddr() net.Addr                          { return fakeAddr }
+func (c *fakeConn) SetDeadline(t time.Time) error                { return nil }
+func (c *fakeConn) SetReadDeadline(t time.Time) error            { return nil }
+func (c *fakeConn) SetWriteDeadline(t time.Time) error           { return nil }
 
 // rig is one running parser (optionally behind a real receiver) with its observers.
 type rig struct {
@@ -1462,11 +1462,11 @@ func decodable(c *httpCase) (ok bool, why string) {
 }
 
 type httpChecker struct {
-	r      *mon.Run
-	h      *httpHandlerSpy
-	router http.Handler
-	ts     *httptest.Server
-	client *http.Client
+	r       *mon.Run
+	h       *httpHandlerSpy
+	router  http.Handler
+	ts      *httptest.Server
+	client  *http.Client
 	tcpTime time.Duration
 }
 
@@ -1675,7 +1675,7 @@ func TestCheck(t *testing.T) {
 	logrus.SetOutput(io.Discard) // the parser logs bad lines through the global logger
 	r := mon.Start(t, "C03")
 	defer r.Finish()
-	r.Rule("three input families, all PRNG-determined: (1) lines for the lexer entry: structure-aware random bytes with NUL, single-point mutations of grammar derivations with NUL/odd bytes, and `_e{n,m}` headers whose lengths are enumerated (and sampled) around 0, the body lengths, 2^16, 2^31, 2^32, 2^63, 2^64, 20+ digits and the sums that wrap a 32-bit addition, crossed with bodies shorter/equal/longer than declared; (2) datagrams of 0..65535 bytes (line mixtures, random bytes, one very long component, tens of thousands of short or empty lines), alone or in batches, fed to a real DatagramParser.Run goroutine directly or through a real DatagramReceiver on a fake socket, each followed by a sentinel line; (3) POSTs to /v2/raw and /v2/event through the router of web.NewHttpServer: valid, truncated, bit-flipped and hand-crafted protobuf (absent sub-messages, lying lengths, groups), random bytes, packed raw / zlib / lz4 / corrupted zlib / corrupted lz4 / doubly packed, crossed with Content-Encoding absent, identity, deflate, lz4, unknown and 65..4000-byte junk; every 10th also over a real TCP server; a few 16-64 MiB decompression bombs. Oracles: no panic, return within the watchdog (non-return reproduced once, then a violation), exactly one of metric/event/error per line, lines = metrics_received + events_received + bad_lines_seen growth with bad lines = lines the lexer rejects, sentinel processed after every batch / every 50 requests, a status for every request, decodable requests (by an independent decode with the compression and protobuf libraries) answered 2xx and dispatched once, undecodable ones answered >=400 and not dispatched. Non-trivial: an input that gets past the first lexer state or a datagram with rejected lines / events / >=1500 bytes, or a request reaching a decompression / unmarshal decision; distinct by (family, outcome or error class) resp. (datagram kind, mode, size class, what it produced) resp. (path, declared encoding, packing, reference verdict).")
+	r.Rule("three input families, all PRNG-determined: (1) lines for the lexer entry: structure-aware random bytes with NUL, single-point mutations of grammar derivations with NUL/odd bytes, and `_e{n,m}` headers whose lengths are enumerated (and sampled) around 0, the body lengths, 2^16, 2^31, 2^32, 2^63, 2^64, 20+ digits and the sums that wrap a 32-bit addition, crossed with bodies shorter/equal/longer than declared; (2) datagrams of 0..65535 bytes (line mixtures, random bytes, one very long component, tens of thousands of short or empty lines), alone or in batches, fed to a real DatagramParser.Run goroutine directly or through a real DatagramReceiver on a fake socket, each followed by a sentinel line; (3) POSTs to /v2/raw and /v2/event through the router of web.NewHttpServer: valid, truncated, bit-flipped and hand-crafted protobuf (absent sub-messages, lying lengths, groups), random bytes, packed raw / zlib / lz4 / corrupted zlib / corrupted lz4 / doubly packed, crossed with Content-Encoding absent, identity, deflate, lz4, unknown and 65..4000-byte junk; every 10th also over a real TCP server; a few 16-64 MiB decompression bombs. (4) end to end: the same router and a DatagramParser in front of the real TagHandler -> BackendHandler (2-4 workers, real aggregators) -> MetricFlusher on a mock clock -> capturing backend, fed groups of legal but unusual protobuf bodies (empty sets, timers without values but with a sample count and the reverse, NaN/Inf, empty names and tag-map keys, out-of-range event enums) and UDP lines on one small name/tag/host pool, with idle re-flushes; after each group a sentinel gauge must come out of one of the next flushes (bound 200) (tick through the mock clock, wait for the flush notification and every worker's backend call). Oracles: no panic, return within the watchdog (non-return reproduced once, then a violation), exactly one of metric/event/error per line, lines = metrics_received + events_received + bad_lines_seen growth with bad lines = lines the lexer rejects, sentinel processed after every batch / every 50 requests, a status for every request, decodable requests (by an independent decode with the compression and protobuf libraries) answered 2xx and dispatched once, undecodable ones answered >=400 and not dispatched. Non-trivial: an input that gets past the first lexer state or a datagram with rejected lines / events / >=1500 bytes, or a request reaching a decompression / unmarshal decision; distinct by (family, outcome or error class) resp. (datagram kind, mode, size class, what it produced) resp. (path, declared encoding, packing, reference verdict) resp. (unusual feature of the body, workers, expiry).")
 	r.Assume("compress/zlib, pierrec/lz4 and google.golang.org/protobuf decide what a decodable body is; the status-class oracle for undecodable bodies follows the current tree (the statement only demands some status)")
 	r.Assume("the unbuffered hand-off between receiver, parser input channel and parser loop is what makes 'everything before the fence is processed' observable")
 
@@ -1689,10 +1689,13 @@ func TestCheck(t *testing.T) {
 	phaseDatagrams(r, -1)
 	t2 := time.Now()
 	phaseHTTP(r, -1)
+	t3 := time.Now()
+	phaseE2E(r, -1) // last: a crash further down the pipeline kills this process
+	r.Extra("phase_e2e_cpu_s", time.Since(t3).Seconds())
 	// measured cost per phase, summed over the shards (evidence only)
 	r.Extra("phase_lexer_cpu_s", t1.Sub(t0).Seconds())
 	r.Extra("phase_datagram_cpu_s", t2.Sub(t1).Seconds())
-	r.Extra("phase_http_cpu_s", time.Since(t2).Seconds())
+	r.Extra("phase_http_cpu_s", t3.Sub(t2).Seconds())
 }
 
 var idxRe = regexp.MustCompile(`phase=(\w+) idx=(\d+)`)
@@ -1717,6 +1720,8 @@ func replay(t *testing.T, r *mon.Run, p []byte) {
 			if len(raw) > 0 {
 				c.runBatch(cs.Index, cs.Kind, cs.Mode, cs.Namespace, raw)
 			}
+		case "e2e":
+			phaseE2E(r, cs.Index)
 		case "http":
 			c, err := newHTTPChecker(r)
 			if err == nil && len(raw) == 1 {
@@ -1740,6 +1745,8 @@ func replay(t *testing.T, r *mon.Run, p []byte) {
 				phaseDatagrams(r, idx)
 			case "http":
 				phaseHTTP(r, idx)
+			case "e2e":
+				phaseE2E(r, idx)
 			}
 			return
 		}
